@@ -639,8 +639,25 @@ func oracleC10(op string, args []string) string {
 				}()
 				out1, e1 = m.PlainNasEncode()
 				return true
-			}(); !known {
-				return skip // ill-formed (header names an absent body)
+			}(); !known || e1 != nil {
+				// ill-formed (header names an absent body) or rejected: nothing is said about the output, but what the caller's
+				// buffer held before the call is still there afterwards
+				buf := new(bytes.Buffer)
+				buf.Write(pre)
+				func() {
+					defer func() { _ = recover() }()
+					if fam == "gmm" {
+						_ = m.GmmMessageEncode(buf)
+					} else {
+						_ = m.GsmMessageEncode(buf)
+					}
+				}()
+				if !bytes.HasPrefix(buf.Bytes(), pre) {
+					return "FAIL a failing encode removed or changed what the supplied buffer already held: " + hexs(buf.Bytes())
+				}
+				if !known {
+					return skip
+				}
 			}
 			if e1 == nil {
 				snap := append([]byte{}, out1...)
